@@ -210,24 +210,27 @@ def sh4(prog):
                  "; ".join(e.lstrip("?") for e in errs) if errs else "node(var, low = sub-diagram after var=false, high = after var=true)")]
 
 
+def _under(prog, root):
+    """the function `root` and everything nested in it (nested fns and closures, at any depth)"""
+    rs = [f for f in prog.lib_fns if f.npath == root]
+    return rs + [f for f in prog.lib_fns if f.npath.startswith(root + "::")]
+
+
 def sh5(prog):
     out = []
-    # BDD fold closure
-    nest = [f for f in prog.lib_fns if f.parent == "<repr::bdd::BddPtr as repr::ddnnf::DDNNFPtr>::fold" and f.kind != "Closure"]
-    if len(nest) != 1:
-        raise CheckerError("SH5: nested traversal of BddPtr::fold not found")
-    par = nest[0].npath
-    rec_name = nest[0].name
-    cl = [f for f in prog.lib_fns if f.parent == par and f.kind == "Closure"]
-    if len(cl) != 1:
-        raise CheckerError("SH5: BDD fold closure not found")
-    fn = cl[0]
-    te = fn.terms
+    # ---- BDD fold: the decision node is Or(And(¬x, value of low), And(x, value of high)).  The node is built in a closure,
+    # in a nested fn or in the traversal itself: every body under `fold` is searched.
+    root = "<repr::bdd::BddPtr as repr::ddnnf::DDNNFPtr>::fold"
+    fam = _under(prog, root)
+    if not fam:
+        raise CheckerError("SH5: BddPtr::fold not found")
+    rec_names = {f.name for f in fam if f.kind != "Closure" and f.npath != root}
+    sites = [(g, t) for g in fam for bb, t, line in g.terms.aggs if t[1] == "adt" and (t[2] or "").endswith("DDNNF") and t[3] == "And"]
+    fn = sites[0][0] if sites else fam[0]
     errs = []
-    ands = [t for bb, t, line in te.aggs if t[1] == "adt" and (t[2] or "").endswith("DDNNF") and t[3] == "And"]
-    if len(ands) != 2:
-        errs.append("expected two And nodes, found %d" % len(ands))
-    for t in ands:
+    if len(sites) != 2:
+        errs.append("%sexpected two And nodes, found %d" % ("?" if len(sites) < 2 else "", len(sites)))
+    for g, t in sites:
         lit, child = strip(t[4][0]), strip(t[4][1])
         lpol = None
         for x in mir.subterms(lit):
@@ -235,12 +238,11 @@ def sh5(prog):
                 lpol = strip(x[4][1])[2]
         which = None
         for x in mir.subterms(child):
-            if mir.is_call(x, rec_name):
+            if x[0] == "call" and x[1].name in rec_names and x[2]:
                 a = x[2][0]
-                # (l, h) tuple projection .0 / .1 of the gated pair, or low_raw/high_raw directly
+                # (l, h) tuple projection .0 / .1 of the gated pair, or low/high (raw or effective) directly
                 if a[0] == "field" and a[2] in ("0", "1"):
                     which = "low" if a[2] == "0" else "high"
-                    # confirm the tuple is (low.., high..)
                     for y in mir.subterms(a[1]):
                         if y[0] == "agg" and y[1] == "tuple" and len(y[4]) == 2:
                             n0 = [z[1].name for z in mir.subterms(y[4][0]) if mir.is_call(z) and z[1].name.startswith(("low", "high"))]
@@ -254,47 +256,45 @@ def sh5(prog):
             errs.append("?And node shape not recognised: %s" % show(t)[:80])
         elif (lpol == "1") != (which == "high"):
             errs.append("the %s literal is paired with the %s child" % ("positive" if lpol == "1" else "negative", which))
-    out.append(inst("SH", "%s:SH5:literal-child-pairing" % fn.npath, VIOLATION if errs else OK, fn, None,
+    out.append(inst("SH", "%s:SH5:literal-child-pairing" % root, VIOLATION if errs else OK, fn, None,
                     "; ".join(errs) if errs else "Or(And(¬x, low), And(x, high))"))
-    # bdd_fold_h closure: f(node.var, l, h)
-    cl = [f for f in prog.lib_fns if f.parent == "repr::bdd::BddPtr::bdd_fold_h" and f.kind == "Closure"]
-    if len(cl) != 1:
-        raise CheckerError("SH5: bdd_fold_h closure not found")
-    fn = cl[0]
-    te = fn.terms
+    # ---- bdd_fold_h: the callback receives (node.var, value of low, value of high), wherever it is applied
+    root = "repr::bdd::BddPtr::bdd_fold_h"
+    fam = _under(prog, root)
+    if not fam:
+        raise CheckerError("SH5: bdd_fold_h not found")
     errs = []
-    calls = [cs for cs in te.calls if cs.callee.name in ("call", "call_mut", "call_once") and not cs.callee.closure]
     ok = False
-    for cs in calls:
-        tup = strip(cs.args[1]) if len(cs.args) == 2 else None
-        if tup and tup[0] == "agg" and tup[1] == "tuple" and len(tup[4]) == 3:
-            l, h = strip(tup[4][1]), strip(tup[4][2])
-            ln = [z[1].name for z in mir.subterms(l) if mir.is_call(z) and z[1].name in ("low", "high", "low_raw", "high_raw")]
-            hn = [z[1].name for z in mir.subterms(h) if mir.is_call(z) and z[1].name in ("low", "high", "low_raw", "high_raw")]
-            if ln and hn:
-                ok = True
-                if not (ln[0].startswith("low") and hn[0].startswith("high")):
-                    errs.append("callback receives (var, value of %s, value of %s)" % (ln[0], hn[0]))
+    fn = fam[0]
+    for g in fam:
+        for cs in g.terms.calls:
+            if cs.callee.name not in ("call", "call_mut", "call_once") or cs.callee.closure:
+                continue
+            tup = strip(cs.args[1]) if len(cs.args) == 2 else None
+            if tup and tup[0] == "agg" and tup[1] == "tuple" and len(tup[4]) == 3:
+                l, h = strip(tup[4][1]), strip(tup[4][2])
+                ln = [z[1].name for z in mir.subterms(l) if mir.is_call(z) and z[1].name in ("low", "high", "low_raw", "high_raw")]
+                hn = [z[1].name for z in mir.subterms(h) if mir.is_call(z) and z[1].name in ("low", "high", "low_raw", "high_raw")]
+                if ln and hn:
+                    ok = True
+                    fn = g
+                    if not (ln[0].startswith("low") and hn[0].startswith("high")):
+                        errs.append("callback receives (var, value of %s, value of %s)" % (ln[0], hn[0]))
     if not ok:
         errs.append("?callback application not recognised")
-    out.append(inst("SH", "%s:SH5:callback-order" % fn.npath, VIOLATION if errs else OK, fn, None,
+    out.append(inst("SH", "%s:SH5:callback-order" % root, VIOLATION if errs else OK, fn, None,
                     "; ".join(errs) if errs else "f(var, value of low, value of high)"))
-    # SDD fold closure: And(rec(prime(e)), rec(sub(e))) of one element
-    nest = [f for f in prog.lib_fns if f.parent == "<repr::sdd::SddPtr as repr::ddnnf::DDNNFPtr>::fold" and f.kind != "Closure"]
-    if len(nest) != 1:
-        raise CheckerError("SH5: nested traversal of SddPtr::fold not found")
-    par = nest[0].npath
-    rec_name = nest[0].name
-    cl = [f for f in prog.lib_fns if f.parent == par and f.kind == "Closure"]
-    if len(cl) < 1:
-        raise CheckerError("SH5: SDD fold closure not found")
-    fn = cl[0]
+    # ---- SDD fold: And(rec(prime(e)), rec(sub(e))) of one element
+    root = "<repr::sdd::SddPtr as repr::ddnnf::DDNNFPtr>::fold"
+    fam = _under(prog, root)
+    if not fam:
+        raise CheckerError("SH5: SddPtr::fold not found")
     errs = []
-    fam = [g for g in prog.lib_fns if g.npath.startswith(par + "::{closure")]   # the element step may sit in a nested closure (Iterator::fold)
-    ands = [t for g in fam for bb, t, line in g.terms.aggs if t[1] == "adt" and (t[2] or "").endswith("DDNNF") and t[3] == "And"]
-    if len(ands) != 1:
-        errs.append("?expected one And node, found %d" % len(ands))
-    for t in ands:
+    sites = [(g, t) for g in fam for bb, t, line in g.terms.aggs if t[1] == "adt" and (t[2] or "").endswith("DDNNF") and t[3] == "And"]
+    fn = sites[0][0] if sites else fam[0]
+    if len(sites) != 1:
+        errs.append("?expected one And node, found %d" % len(sites))
+    for g, t in sites:
         names = []
         elems = set()
         for o in t[4]:
@@ -304,7 +304,7 @@ def sh5(prog):
                 elems.add(repr(strip(nm[0][2][0])))
         if sorted(x or "" for x in names) != ["prime", "sub"] or len(elems) != 1:
             errs.append("And node combines %s of %d element(s); expected the prime and the sub of one element" % (names, len(elems)))
-    out.append(inst("SH", "%s:SH5:prime-sub-pairing" % fn.npath,
+    out.append(inst("SH", "%s:SH5:prime-sub-pairing" % root,
                     OK if not errs else (UNDECIDED if all(e.startswith("?") for e in errs) else VIOLATION), fn, None,
                     "; ".join(e.lstrip("?") for e in errs) if errs else "Or over elements of And(prime, sub)"))
     return out
